@@ -40,6 +40,8 @@ use std::{
 };
 
 mod behaviour;
+#[cfg(libp2p_verif)]
+pub use crate::behaviour::verif_c55;
 #[cfg(feature = "tokio")]
 pub use crate::behaviour::tokio;
 pub use crate::behaviour::{Behaviour, Event};
